@@ -17,7 +17,7 @@ for i in ids:
     try:
         for p in props:
             t0 = time.time()
-            pr = subprocess.run([os.path.join(VERIF, 'check'), p, '--tier', tier], cwd=VERIF, stdout=subprocess.PIPE, stderr=subprocess.STDOUT, text=True,
+            pr = subprocess.run([os.path.join(VERIF, 'check'), p, '--tier', tier] + (['--only', os.environ['EVAL_ONLY']] if os.environ.get('EVAL_ONLY') else []), cwd=VERIF, stdout=subprocess.PIPE, stderr=subprocess.STDOUT, text=True,
                                 env=dict(os.environ, VERIF_REPO=REPO, VERIF_EVIDENCE_DIR=os.environ.get('VERIF_EVIDENCE_DIR', '/tmp/verif-evidence-scratch'), VERIF_CACHE=os.environ.get('VERIF_CACHE', '/tmp/verif-cache')))
             lines = pr.stdout.splitlines()
             viol = [l for l in lines if l.startswith('VIOLATION')]
@@ -27,5 +27,5 @@ for i in ids:
     finally:
         subprocess.run(['git', '-C', REPO, 'checkout', '--', '.'])
     out = {'seed': i, 'tier': tier, 'results': res, 'detected': any(v['exit'] == 1 and v['violation_lines'] for v in res.values())}
-    json.dump(out, open(os.path.join(d, 'result-%s.json' % tier), 'w'), indent=1)
+    json.dump(out, open(os.path.join(d, 'result-%s%s.json' % (tier, ('-' + os.environ['EVAL_ONLY'].replace(',', '')) if os.environ.get('EVAL_ONLY') else '')), 'w'), indent=1)
     print(i, 'DETECTED' if out['detected'] else 'MISSED', {p: (v['exit'], v['wall_s']) for p, v in res.items()}, flush=True)
